@@ -279,20 +279,20 @@ def p_rules(P, E):
                         r.violate(("P1", b.nid, "source subscribed outside connect"), "publish subscribes its source outside connect()", body=b, line=c.line)
     if n < 1:
         r.error("P1: no subscribe in impl Publish")
-    for root in ("operators::ref_count::RefCount::set_ref_count", "operators::replay::Replay::set_ref_count"):
+    for root in ("operators::ref_count::RefCount::new", "operators::replay::Replay::new"):
         rb = P.body(root)
         if rb is None:
             r.error("anchor missing: %s" % root)
             continue
         up = down = None
-        for b in P.descendants(rb):
-            if "COUNT_UP" in E.role_of(b.id):
-                up = b
-            if "COUNT_DOWN" in E.role_of(b.id):
-                down = b
-        if up is None or down is None:
-            r.error("P: count-up/down closures not found in %s" % root)
-            continue
+        for c in rb.calls:             # private helpers (set_ref_count) are inlined into the constructor
+            roles = ROLE_API.get(c.path, {})
+            for i, role in roles.items():
+                cl = c.arg_closure(i)
+                if cl in P.bodies and role == "COUNT_UP":
+                    up = P.bodies[cl]
+                if cl in P.bodies and role == "COUNT_DOWN":
+                    down = P.bodies[cl]
         # P2: test-and-set under one W guard
         sa, held, sh = _acq_field(P, up, "subscription")
         tests = [c for c in up.calls if c.path in ("std::option::Option::is_some", "std::option::Option::is_none")
@@ -332,7 +332,8 @@ def p_rules(P, E):
         if not un:
             r.violate(("P3", root, "count-down never unsubscribes"), "when the last subscriber leaves the source subscription is not unsubscribed", body=down)
         # P4: subscription written only in count-up
-        for b in [rb] + P.descendants(rb):
+        from rules_c17 import _closures_in_view
+        for b in [rb] + _closures_in_view(P, rb):
             for i in sorted(b.reach):
                 for s in b.blocks[i]["stmts"]:
                     if s["k"] == "assign" and len(s["lhs"]) > 1 and "*" in s["lhs"] and _hits(P, b, b.place_prov(s["lhs"]), "subscription"):
@@ -387,7 +388,7 @@ def d_rules(P, E, H):
     designated = []
     tk = None
     for t in H.triples:
-        if t["root"] == "operators::take::Take::execute":
+        if t["root"] == "operators::take::Take":
             tk = t["handlers"]["N"]
     if tk is None:
         r.error("anchor missing: take next-handler")
